@@ -20,6 +20,7 @@ pub mod c16;
 pub mod c17;
 pub mod c17_san;
 pub mod c17_lsp;
+pub mod c17_resolved;
 pub mod c18;
 pub mod c19;
 pub mod fmtwork;
